@@ -31,7 +31,7 @@ META = {
                   "rejected). Larger random / collection graphs (<= ~80 nodes) are sampled.",
     "level_note": "Trusted: TLC, the graph builder of harness/graphs.py (checked against a Python reference of IsDag on every "
                   "case), GraphNode.dependencies for graphs taken from collections. Bounded graph sizes; above the bound "
-                  "sampling only. A CPU-time guard (0.5 s, confirmed with 1 s) turns non-termination into an observation.",
+                  "sampling only. A CPU-time guard (0.2 s, confirmed with 0.6 s) turns non-termination into an observation.",
 }
 
 FORMS = ("legacy", "taskspec", "mixed")
@@ -128,9 +128,17 @@ def classify(rec, clauses):
         return "cyclic:accepted"
     if rec["res"] == "hang":
         return "dag:hang:%s" % form
-    if rec["res"] == "raised":
-        return "dag:raised:%s:%s" % (form, rec.get("exc", "?"))
     removed, alive = removable_leaves(inner, kinds)
+    if rec["res"] == "raised":
+        # a plain-data root with several dependents, every one of which is a non-task leaf that the
+        # normalisation removes: the root is parked on them and never receives a priority
+        gone = set(range(1, n + 1)) - alive
+        for c in range(1, n + 1):
+            dependents = {k for k in range(1, n + 1) if c in inner[k - 1]}
+            if kinds[c - 1] == "p" and not inner[c - 1] and len(dependents) >= 2 and dependents <= gone \
+                    and rec.get("exc") == "IndexError":
+                return "data-root-of-removed-nontask-leaves:IndexError"
+        return "dag:raised:%s:%s" % (form, rec.get("exc", "?"))
     if removed >= 2 and set(clauses) <= {"Distinct", "DepsFirst"}:
         # the known collision: is everything fine once the removed leaves are set aside?
         pr = {k: p for k, p in rec["prio"]}
@@ -191,31 +199,31 @@ def job(fam, n, allkinds=True, maxext=0, stride=1, offset=0):
     return {"fam": fam, "n": n, "allkinds": allkinds, "maxext": maxext, "stride": stride, "offset": offset}
 
 
-def plan_for(ctx):
-    """Enumeration jobs of the tier.  Exhaustive (stride 1) up to the stated bound; one notch above
-    it a declared stride sample of the graph codes whose offset is drawn from the seed."""
+def plans_for(ctx):
+    """Enumeration jobs of the tier, grouped into TLC runs.  Exhaustive (stride 1) up to the stated
+    bound; one notch above it a declared stride sample of the graph codes whose offset is drawn
+    from the seed."""
     off = lambda st: ctx.rng.randrange(st)
+    small = ([job("dag", n) for n in range(1, 6)] + [job("ext", n, maxext=2) for n in range(1, 5)]
+             + [job("cyc", n) for n in range(1, 4)])
     if ctx.quick:
-        return ([job("dag", n) for n in range(1, 6)]
-                + [job("ext", n, maxext=2) for n in range(1, 5)]
-                + [job("cyc", n) for n in range(1, 4)]
-                + [job("cyc", 4, allkinds=False, stride=32, offset=off(32))])
-    return ([job("dag", n) for n in range(1, 6)] + [job("dag", 6, stride=8, offset=off(8))]
-            + [job("ext", n, maxext=2) for n in range(1, 5)] + [job("ext", 5, maxext=2, stride=8, offset=off(8))]
-            + [job("cyc", n) for n in range(1, 4)]
-            + [job("cyc", 4, allkinds=False)])
+        return [small + [job("cyc", 4, allkinds=False, stride=32, offset=off(32))]]
+    return [small,
+            [job("dag", 6, stride=16, offset=off(16))],
+            [job("ext", 5, maxext=2, stride=8, offset=off(8))],
+            [job("cyc", 4, allkinds=False)]]
 
 
 def forms_for(case, rng, all_forms_upto):
+    """every spelling for the small cases, one (seeded) spelling above"""
     forms = ("taskspec", "mixed") if case["fam"] == "ext" else FORMS
-    if case["n"] <= all_forms_upto:
+    if case["n"] <= all_forms_upto - {"dag": 0, "ext": 1, "cyc": 2}[case["fam"]]:
         return list(forms)
     return [rng.choice(forms)]
 
 
-def enumerated(ctx, plan=None, all_forms_upto=None, unsat_n=None):
+def enumerated(ctx, plan, all_forms_upto=None, unsat_n=None):
     """TLC design check + case export; returns [(case, [variants])], #cases, the plan"""
-    plan = plan_for(ctx) if plan is None else plan
     all_forms_upto = ctx.pick(4, 5) if all_forms_upto is None else all_forms_upto
     consts = {"Plan": plan, "UnsatN": ctx.pick(3, 4) if unsat_n is None else unsat_n}
     spec, cfg = ctx.model(ctx.spec("graph", "OrderMC.tla"), consts, invariants=INVS)
@@ -224,9 +232,7 @@ def enumerated(ctx, plan=None, all_forms_upto=None, unsat_n=None):
     for c in cases:
         case = dict(c["c"], dag=c["e"]["dag"])
         items.append((case, [variant_for(ctx.rng, case["n"], f) for f in forms_for(case, ctx.rng, all_forms_upto)]))
-    fams = {c["fam"] for c, _ in items}
-    if not {"dag", "ext", "cyc"} <= fams and len(plan) > 3:
-        raise MachineryError("case enumeration is missing a family: %s" % sorted(fams))
+    ctx.rng.shuffle(items)          # spread the expensive (non-terminating) cases over the workers
     return items, len(items), plan
 
 
@@ -278,11 +284,30 @@ def random_cases(ctx, count):
                 i = rng.randrange(n)
                 if kinds[i] == "t":
                     deps[i] = sorted(set(deps[i]) | {n + rng.choice([1, 2])})
-        if rng.random() < 0.15:
+        if rng.random() < 0.06:
             deps = G.add_back_edges(rng, deps, rng.randint(1, 2))
         case = {"n": n, "deps": deps, "kinds": kinds}
         case["dag"] = not G.has_cycle([[d for d in ds if d <= n] for ds in deps])
         items.append((case, [variant_for(rng, n, form)]))
+    return items
+
+
+def fixed_cases(ctx):
+    """Hand-written witnesses just above the exhaustive bound (DESIGN.md section 7 and the findings
+    of this check), each in every spelling that can express it."""
+    shapes = [
+        # 4 tasks + 3 list leaves over pairs (section 7 witness)
+        ([[], [], [], [], [1, 2], [2, 3], [3, 4]], "ttttppp"),
+        # a data root shared by two list nodes that are themselves collected by a list leaf
+        ([[], [], [], [1, 2, 3], [1, 2, 3], [4, 5]], "tptppp"),
+        ([[], [], [], [], [2, 3, 4], [1, 3, 5], [5, 6]], "ptppppp"),
+        # store-like: data roots, one task layer, two list leaves
+        ([[], [], [1], [2], [1, 2], [3, 4], [3, 4]], "ppttttp"),
+    ]
+    items = []
+    for deps, kinds in shapes:
+        case = {"fam": "fixed", "n": len(deps), "deps": deps, "kinds": list(kinds), "dag": True}
+        items.append((case, [variant_for(ctx.rng, len(deps), f) for f in FORMS]))
     return items
 
 
@@ -292,13 +317,14 @@ def collection_graphs(ctx):
     import dask.array as da
     import dask.bag as db
     import numpy as np
+    from dask._task_spec import convert_legacy_graph   # what dask.local does before it calls order()
     out = []
 
     def add(name, coll):
         try:
-            out.append((name, dict(coll.__dask_graph__())))
+            out.append((name, convert_legacy_graph(dict(coll.__dask_graph__()))))
             (opt,) = dask.optimize(coll)
-            out.append((name + ":opt", dict(opt.__dask_graph__())))
+            out.append((name + ":opt", convert_legacy_graph(dict(opt.__dask_graph__()))))
         except Exception as ex:  # noqa: BLE001 - building inputs is not the property
             ctx.skip("collection %s not built: %s" % (name, type(ex).__name__))
 
@@ -348,24 +374,39 @@ def collection_records(ctx):
 
 
 # --------------------------------------------------------------------------- entry points
+def process(ctx, items, prefix, slice_=50000):
+    """run the real function on the items and let TLC judge the records, slice by slice (bounded memory)"""
+    fams = {}
+    for lo in range(0, len(items), slice_):
+        recs = run_items(ctx, items[lo:lo + slice_], "%s%d_" % (prefix, lo // slice_))
+        report(ctx, recs, judge(ctx, recs))
+        for r in recs:
+            fams.setdefault(r["fam"], r)
+    for fam, r in sorted(fams.items()):
+        if fam in ("dag", "ext", "cyc"):
+            ctx.sample({"family": fam, "n": r["n"], "deps": r["deps"], "kinds": r["kinds"], "form": r["variant"]["form"],
+                        "res": r["res"], "prio": r["prio"]})
+    return set(fams)
+
+
 def run(ctx):
-    items, total, plan = enumerated(ctx)
+    total, plan, fams = 0, [], set()
+    for gi, group in enumerate(plans_for(ctx)):
+        items, n, _ = enumerated(ctx, group)
+        total += n
+        plan += group
+        fams |= process(ctx, items, "e%d_" % gi)
+        del items
+    if not {"dag", "ext", "cyc"} <= fams:
+        raise MachineryError("case enumeration is missing a family: %s" % sorted(fams))
     sampled = any(j["stride"] > 1 for j in plan)
-    recs = run_items(ctx, items, "e")
-    del items
-    for fam in ("dag", "ext", "cyc"):
-        mine = [r for r in recs if r["fam"] == fam]
-        r = mine[len(mine) // 2]
-        ctx.sample({"family": fam, "n": r["n"], "deps": r["deps"], "kinds": r["kinds"], "form": r["variant"]["form"],
-                    "res": r["res"], "prio": r["prio"]})
     # larger graphs
-    recs += run_items(ctx, random_cases(ctx, ctx.pick(3000, 60000)), "r")
-    recs += collection_records(ctx)
-    bad = judge(ctx, recs)
-    report(ctx, recs, bad)
+    process(ctx, fixed_cases(ctx) + random_cases(ctx, ctx.pick(2000, 20000)), "r")
+    recs = collection_records(ctx)
+    report(ctx, recs, judge(ctx, recs))
     ctx.exhaustive = not sampled
     ctx.extra["cases_enumerated_by_tlc"] = total
-    ctx.extra["enumeration_plan"] = plan_for.__doc__.split("\n")[0] + " " + json.dumps(
+    ctx.extra["enumeration_plan"] = json.dumps(
         [[j["fam"], j["n"], "all kinds" if j["allkinds"] else "all-task/all-plain", "stride %d" % j["stride"]]
          for j in plan])
     ctx.rule = ("cases = TLC-enumerated (graph, kinds, external refs) x spelling (legacy / Task objects / mixed; scrambled names, "
@@ -373,7 +414,7 @@ def run(ctx):
                 "record decided by TLC; non-trivial = at least 3 keys and 2 edges; distinct by (graph, kinds, spelling)")
     ctx.assumptions = ["TLC evaluates the contract correctly", "harness/graphs.build constructs the graph the case describes",
                        "GraphNode.dependencies is right for collection-derived graphs (C08)",
-                       "a call that burns 0.5 s and then again 1 s of CPU without returning does not terminate"]
+                       "a call that burns 0.2 s and then again 0.6 s of CPU without returning does not terminate"]
 
 
 def replay(ctx, obj):
@@ -400,36 +441,38 @@ def selftest(ctx):
             + [job("cyc", n, allkinds=False) for n in range(1, 4)])
     items, _, _ = enumerated(ctx, plan, all_forms_upto=9, unsat_n=3)
 
-    def signatures(tag):
-        sigs = {}
-        recs = run_items(ctx, items, tag)
-        for r, clauses in judge(ctx, recs):
-            sg = classify(r, clauses)
-            sigs[sg] = sigs.get(sg, 0) + 1
-        return sigs
-
-    base = signatures("b")
-    allowed = set(ctx.known)
-    extra = set(base) - allowed
-    print("selftest C06: unchanged tree -> signatures %s (known: %s)" % (sorted(base), sorted(allowed)))
-    if extra:
-        print("selftest C06: FAIL unchanged tree is rejected outside the known findings: %s" % sorted(extra))
-        ok = False
     mutants = [
         ("external keys keep their priorities (dropped final deletion loop)", dask.order, "order",
          "    for k in external_keys:\n        del result[k]\n", "    pass\n"),
         ("a dependent is released when one dependency is still missing (off-by-one in num_needed test)", dask.order, "order",
          "                if not num_needed[dep]:\n                    if len(dependents[item]) == 1:",
          "                if num_needed[dep] <= 1:\n                    if len(dependents[item]) == 1:"),
-        ("priority counter also skips internal keys (wrong operand: `in` for `not in`)", dask.order, "order",
+        ("priority counter also skips internal keys (wrong operand in the external-key test)", dask.order, "order",
          "if item not in external_keys:\n                i += 1", "if item in external_keys or i % 2:\n                i += 1"),
-        ("cycle check disabled for graphs that still have a root (dropped branch)", dask.order, "order",
-         "if len(total_dependencies) != len(dsk):", "if len(total_dependencies) != len(dsk) and not root_nodes:"),
+        ("removed data roots are not parked on their dependents (dropped statement)", dask.order, "order",
+         "                    requires_data_task[dep].add(root)\n", "                    pass\n"),
     ]
-    for what, mod, name, old, new in mutants:
+    # run the same case set on the unchanged function and on every mutant, then one TLC judgement
+    recs = run_items(ctx, items, "b_")
+    for mi, (what, mod, name, old, new) in enumerate(mutants):
         with mutant(mod, name, old, new):
-            got = signatures("m")
-        new_sigs = {s: c for s, c in got.items() if c > base.get(s, 0)}
+            recs += run_items(ctx, items, "m%d_" % mi)
+    sigs = {}
+    for r, clauses in judge(ctx, recs):
+        tag = r["id"].split("_")[0]
+        sg = classify(r, clauses)
+        sigs.setdefault(tag, {})
+        sigs[tag][sg] = sigs[tag].get(sg, 0) + 1
+    base = sigs.get("b", {})
+    allowed = set(ctx.known)
+    extra = set(base) - allowed
+    print("selftest C06: unchanged tree -> signatures %s (known: %s)" % (sorted(base), sorted(allowed)))
+    if extra:
+        print("selftest C06: FAIL unchanged tree is rejected outside the known findings: %s" % sorted(extra))
+        ok = False
+    for mi, (what, _m, _n, _o, _nw) in enumerate(mutants):
+        got = sigs.get("m%d" % mi, {})
+        new_sigs = {sg: c for sg, c in got.items() if c > base.get(sg, 0)}
         det = bool(new_sigs)
         print("selftest C06: mutant [%s] -> %s %s" % (what, "DETECTED" if det else "MISSED", sorted(new_sigs.items())[:4]))
         ok = ok and det
